@@ -47,6 +47,7 @@ class Ctx:
         self.wd = None
         self.cfgs = {}
         self.notes = []
+        self.dropped = {}
     def cfg(self, L=None):
         if L not in self.cfgs:
             self.cfgs[L] = build.configure(self.wd, L)
@@ -110,9 +111,21 @@ def run_one_stream(ctx, s, cases, model_stream=None, flavours=None):
         mcases = [s.model_case(c) for c in cases] if s.model_case else cases
         model_lines = corr.run_stream(corr.model_cmd(model_stream or s.model_stream or s.stream, margs), mcases, timeout=s.timeout)
     dis, impl_by = [], {}
+    # Under a refusal schedule a history that is legal when every allocation succeeds can become one no
+    # client would run (e.g. the item for a tag could not be built, so cbor_tag_set_item was not called,
+    # and a later cbor_tag_item on the still-empty tag is a precondition violation).  The hand-written
+    # model reports exactly those as FAULT; such cases are not handed to the implementation (it would
+    # crash on the caller's error and take the other schedules of the case with it).
+    keep = [i for i, ml in enumerate(model_lines) if not (s.stream == "fault" and "FAULT:" in ml)]
+    dropped = len(cases) - len(keep)
+    if dropped:
+        ctx.dropped[s.name] = dropped
     for fl in (flavours or s.flavours):
         hx = ctx.hx(fl, s.L)
-        impl = corr.run_stream([hx, s.stream] + [str(a) for a in s.args], cases, timeout=s.timeout, env=s.env)
+        sub = corr.run_stream([hx, s.stream] + [str(a) for a in s.args], [cases[i] for i in keep], timeout=s.timeout, env=s.env)
+        impl = list(model_lines)
+        for j, i in enumerate(keep):
+            impl[i] = sub[j] if j < len(sub) else "MISSING"
         impl_by[fl] = impl
         for (i, c, a, b) in corr.compare(cases, impl, model_lines):
             dis.append((fl, i, c, a, b))
@@ -180,6 +193,8 @@ def run_property(prop, tier, seed, replay=None):
                 cov["streams"][s.name] = {"cases": len(cases), "flavours": list(s.flavours), "nontrivial": nt,
                                           "outcome_distribution": dist, "disagreements": len(dis),
                                           "exhaustive": s.exhaustive, "rule": s.rule}
+                if ctx.dropped.get(s.name):
+                    cov["streams"][s.name]["cases_illegal_under_a_refusal_schedule_not_run"] = ctx.dropped[s.name]
                 k = min(3, len(cases))
                 for idx in ([0, len(cases) // 2, len(cases) - 1][:k] if cases else []):
                     cov["samples"].append({"stream": s.name, "case": cases[idx][:300], "model": model_lines[idx][:300],
